@@ -85,7 +85,10 @@ class GMRF(CallableModel):
         )
 
     def _sample_shape(self) -> torch.Size:
-        return self.field.tensor.shape[:-1]
+        shapes = [self.field.tensor.shape[:-1], self.precision.tensor.shape[:-1]]
+        if self.tree_model is not None:
+            shapes.append(self.tree_model.sample_shape)
+        return max(shapes, key=len)
 
     def _difference_weights(self):
         """Weights dividing the squared first differences in the density
